@@ -208,10 +208,10 @@ def target_text(r, sem):
             for i, g in enumerate(t):
                 if g in DI:
                     j = i - 1
-                    while j >= 0 and (is_mark_gid(sem, t[j]) or t[j] in DI):
-                        j -= 1
+                    while j >= 0 and (is_mark_gid(sem, t[j]) or t[j] in DI or (t[j] == MULT_SRC and sem["gsub"].get("mult"))):
+                        j -= 1             # (the MultipleSubst source may expand to marks only)
                     if j >= 0 and t[j] in (12, 13):
-                        t[i] = r.choice(GEN)
+                        t[i] = r.choice(GEN[:-1])
             t.reverse()
     return t
 
